@@ -4,7 +4,7 @@
 # whose go.mod points at it, so that neither /repo nor /verif is disturbed. Removes both at the end.
 set -u
 out="$1"
-W=/tmp/mw/matrixrepo; V=/root/scratch/vmatrix
+T="${MATRIX_TAG:-}"; W=/tmp/mw/matrixrepo$T; V=/root/scratch/vmatrix$T   # MATRIX_TAG lets several instances run side by side
 rm -rf "$V"; git -C /repo worktree remove --force "$W" 2>/dev/null; git -C /repo worktree prune
 mkdir -p /tmp/mw && git -C /repo worktree add -q --detach "$W" HEAD || exit 2
 mkdir -p "$V" && rsync -a --exclude .git --exclude bin --exclude .work --exclude replays --exclude evidence /verif/ "$V"/
